@@ -1894,3 +1894,7 @@ fn test_remove() {
 fn test_alloc_failure() {
     SetU32::with_capacity_and_bits(usize::MAX / 8 - 2, 0);
 }
+
+/// Views for external verification tooling (`--cfg droundy_tinyset_verif` only).
+#[cfg(droundy_tinyset_verif)]
+pub mod verif;
